@@ -1,7 +1,7 @@
 #!/bin/bash
-# usage: try_edit.sh Cnn <file relative to repo> <python-regex> <replacement>   (applies to /work/a1/repo, runs check, reverts)
+# usage: try_edit.sh Cnn <file relative to repo> <python-regex> <replacement>   (applies to /work/a1/repo_m, runs check, reverts)
 pid=$1; f=$2; pat=$3; rep=$4
-cd /work/a1/repo && git checkout -q -- . 
+cd /work/a1/repo_m && git checkout -q -- . 
 /venv/bin/python - "$f" "$pat" "$rep" <<'PY'
 import re,sys
 f,pat,rep=sys.argv[1:4]
@@ -12,8 +12,8 @@ if n!=1:
 open(f,"w").write(re.sub(pat,rep,s,count=1,flags=re.S))
 PY
 [ $? -eq 0 ] || exit 3
-git -C /work/a1/repo diff --stat | tail -1
-cd /work/a1/verif && SFV_REPO=/work/a1/repo timeout 900 ./check $pid 2>&1 | grep -v '^  broken' | tail -4
+git -C /work/a1/repo_m diff --stat | tail -1
+cd /work/a1/verif && SFV_REPO=/work/a1/repo_m timeout 900 ./check $pid 2>&1 | grep -v '^  broken' | tail -4
 echo "exit=$?"
 ls evidence/replays/ 2>/dev/null | grep $pid | head -3
 /venv/bin/python - $pid <<'PY'
@@ -22,4 +22,4 @@ for p in sorted(glob.glob(f"/work/a1/verif/evidence/replays/{sys.argv[1]}-*.json
     d=json.load(open(p)); print(p.split('/')[-1], d.get("kind"), d.get("key"), (d.get("detail") or "")[:200]); 
     for b in (d.get("broken") or d.get("no_longer_checks") or [])[:3]: print("   broken:", b["stage"], b["what"][:80], b["detail"][:160].replace("\n"," "))
 PY
-git -C /work/a1/repo checkout -q -- .
+git -C /work/a1/repo_m checkout -q -- .
